@@ -9,6 +9,7 @@ known_findings.json F-C05-1 and the witness below, which is the former counterex
 -/
 import Bourse.Model.Ops
 import Bourse.Lemmas.MatchFrame
+import Bourse.Lemmas.Reach
 
 namespace Bourse.Props.C05
 open Bourse
@@ -126,6 +127,21 @@ theorem reload_stamp_above (b : Book) : b.stamp ≤ b.reload.stamp := by
       · split <;> exact Nat.le_max_left _ _
       · exact Nat.le_refl _
   exact this b.orders (SideS.empty, SideS.empty, b.stamp)
+
+/-- **Ties never lose an order**: the invariant theorem has no clock hypothesis at all — after ANY
+valid fault-free history (clock advanced or not between insertions, arbitrary `time` operations,
+reloads in between) every Active order is queued exactly once under a key of its own, the queue keys
+are pairwise distinct (strictly sorted), and the published aggregates count every one of them. -/
+theorem ties_lose_nothing (t0 tick : Nat) (trading : Bool) (ht : 0 < tick) (ops : List Op)
+    (hv : ∀ op ∈ ops, ValidOp op) (hnf : NoFault (Book.new t0 tick trading) ops) :
+    let b := (Book.new t0 tick trading).run ops
+    (∀ (id : Nat) (e : Entry), b.orders[id]? = some e → e.order.status = .active →
+        ((e.key.pk, e.key.st), id) ∈ (b.side e.order.side).orders) ∧
+    SMap.Sorted b.bid.orders ∧ SMap.Sorted b.ask.orders ∧
+    (∀ sd k k' id, (k, id) ∈ (b.side sd).orders → (k', id) ∈ (b.side sd).orders → k = k') := by
+  intro b
+  have h := inv_reachable t0 tick trading ht ops hv hnf
+  exact ⟨h.act, h.bid.so, h.ask.so, fun sd k k' id h1 h2 => (h.side sd).unique h1 h2⟩
 
 /-- The former counterexample, now a theorem: two asks queued at one price with ONE timestamp and
 a market buy for 12 — both trade, the earlier-queued first; nothing is lost or invisible; the
